@@ -364,6 +364,18 @@ def run(ctx):
     if herr is not None:
         ctx.finding("impl:harness", "the XML harness died (rc=%s)" % herr["rc"], herr)
         return
+    if not os.environ.get("C10_NO_ASAN"):
+        k = min(len(docs), 25 if not ctx.thorough else 200)
+        idx = sorted(ctx.rng.sample(range(len(docs)), k))
+        ares, aerr, adt = run_models(core.build_repo("asan"), [docs[i] for i in idx])
+        if aerr is not None:
+            ctx.finding("impl:sanitizer", "the XML harness died under ASan/UBSan (rc=%s)" % aerr["rc"], aerr)
+        else:
+            bad = [i for i, (it, _, _) in zip(idx, ares) if [(x["guard_ok"], x["inv_ok"], x["guard_type"]) for x in it]
+                   != [(x["guard_ok"], x["inv_ok"], x["guard_type"]) for x in res[i][0]]]
+            cov["asan_sample"] = {"xml_models": k, "formulas": sum(len(docs[i]) for i in idx), "different_answers": len(bad), "seconds": round(adt, 1)}
+            if bad:
+                ctx.finding("impl:sanitizer-build-differs", "ASan build answers differently on model %d" % bad[0], {"xml": xml_model(docs[bad[0]])})
     ctx.log("library checked %d formulas (as guard and as invariant) in %d XML models, %.1fs" % (len(forms), len(docs), dt))
     verdicts = []
     stray = []
